@@ -7,7 +7,7 @@ package dtlcp
 // genuine one (any order, duplicates allowed) or an arbitrary forgery of a genuine length with an
 // attacker-chosen epoch; the receiver calls ReadFrom (mode 0) or Read (mode 1).
 //
-//verif:harness props=C16,C05,C04,C09 paths=600000 tpaths=6000000 split reach=delivered,dropped
+//verif:harness props=C16,C05,C04,C09 paths=600000 tpaths=6000000 split spin=C09.progress.readLoopTerminates reach=delivered,dropped
 func VerifHarness_C16_conn() {
 	kind := verifSplitInt("cipher", vcGCM, vcCBC)
 	mode := verifSplitInt("readPath", 0, 1)
@@ -255,7 +255,7 @@ func VerifHarness_C17_reassemble() {
 // limit is refused whatever the fragment size, an out-of-range fragment is refused, no panic; the number of
 // pending reassembly buffers after one call is bounded.
 //
-//verif:harness props=C17,C09 paths=60000 reach=error,message
+//verif:harness props=C17,C09 paths=60000 spin=C09.progress.readHandshakeTerminates reach=error,message
 func VerifHarness_C17_hostile_fragments() {
 	rt := &verifPConn{}
 	nd := verifSplitInt("datagrams", 1, 2)
@@ -311,7 +311,7 @@ func verifBytesEqual(a, b []byte) bool {
 // or lying by up to 14 bytes): no panic, no application data accepted, a ChangeCipherSpec takes effect only
 // when expected and well formed, errors are latched.
 //
-//verif:harness props=C08,C03,C09,C12,C19 paths=200000 reach=accepted,ccs,error
+//verif:harness props=C08,C03,C09,C12,C19 paths=400000 spin=C09.progress.dtlcpRecordLoopTerminates reach=accepted,ccs,error
 func VerifHarness_C08_dtlcp_record_prehandshake() {
 	l1 := verifSplitInt("reclen1", 0, 3)
 	d := verifNondetBytes("rec1", 13+l1)
@@ -342,6 +342,7 @@ func VerifHarness_C08_dtlcp_record_prehandshake() {
 	c.vers = VersionTLCP
 	c.haveVers = verifSplitInt("haveVers", 0, 1) == 1
 	c.replayWindow = newReplayWindow(64)
+	c.readEpoch = uint16(verifSplitInt("readEpoch", 0, 1)) // 1: a record of epoch 0 is stale
 	expectCCS := verifSplitInt("expectCCS", 0, 1) == 1
 	if expectCCS {
 		c.in.nextCipher = &verifCBC{}
